@@ -122,8 +122,8 @@ def r_budget(prog, R):
                 r.viol("try_count-writer=%s" % g.name, g.name, g.loc(el), "query->try_count written outside the budget accounting")
 
 
-def r_resend(prog, R):
-    r = R.rule("R-C06-RESEND", "each un-budgeted protocol resend first disables its own guard", floor=3, analysis="A-DOM (table of 3)")
+def r_resend(prog, R, rid="R-C06-RESEND"):
+    r = R.rule(rid, "each un-budgeted protocol resend first disables its own guard", floor=3, analysis="A-DOM (table of 3)")
     f = prog.func("process_answer")
     mf = MustFacts(f)
     apps = f.calls_to("ares_append_requeue")
